@@ -219,6 +219,15 @@ def mutation_kind(stmt_exprs, fresh, skip_self_attrs=True):
             meth = sub.func.attr
             recv = sub.func.value
             root = root_name(recv)
+            if meth == "apply" and root != "super":
+                # a nested transformation changes its *argument*; whether
+                # the transformation object itself was just constructed
+                # says nothing
+                if sub.args and root_name(sub.args[0]) in fresh:
+                    continue
+                if sub.args:
+                    out.append(("apply", ast.unparse(sub)))
+                continue
             if root in fresh:
                 continue
             rtxt = ast.unparse(recv)
